@@ -169,8 +169,19 @@ PackLiteral(T, cx, v) ==
          IN  PairsGet(EnumMembers(T[2][i][2]), v[3])
     [] OTHER -> v
 
-PackDC(T, cx, v) ==
-  LET fs   == DcFields(T)
+\* ---- hooks (C19): the reference hooks used by the harness are fixed, observable transformations of
+\* the first field "n":  __pre_serialize__ returns a copy with n + 1, __post_serialize__ multiplies the
+\* emitted n by 10, __pre_deserialize__ adds 2 to the input's n, __post_deserialize__ multiplies n by 3
+\* -- so order, exactly-once and "the return value is what is used" are all visible in the result.
+HooksOf(T) == GetOpt(DcCfg(T), "hooks", {})
+BumpObj(v, k) == <<"obj", v[2], [i \in DOMAIN v[3] |-> IF i = 1 /\ v[3][1][1] = "int" THEN I(v[3][1][2] + k) ELSE v[3][i]]>>
+MulObj(v, k)  == <<"obj", v[2], [i \in DOMAIN v[3] |-> IF i = 1 /\ v[3][1][1] = "int" THEN I(v[3][1][2] * k) ELSE v[3][i]]>>
+MapN(d, Op(_)) == IF d[1] # "dict" THEN d
+                  ELSE Dct([i \in DOMAIN d[2] |-> IF d[2][i][1] = S("n") /\ d[2][i][2][1] = "int" THEN <<S("n"), I(Op(d[2][i][2][2]))>> ELSE d[2][i]])
+
+PackDC(T, cx, v0) ==
+  LET v    == IF "pre_ser" \in HooksOf(T) THEN BumpObj(v0, 1) ELSE v0
+      fs   == DcFields(T)
       vals == v[3]
       on   == EffOpt(T, cx, "omit_none")
       od   == EffOpt(T, cx, "omit_default")
@@ -185,9 +196,10 @@ PackDC(T, cx, v) ==
       idx  == IF GetOpt(DcCfg(T), "sort_keys", FALSE) THEN GetOpt(DcCfg(T), "sorted_idx", <<>>)
               ELSE [i \in DOMAIN fs |-> i]
       kept == SelectSeq(idx, keep)
-  IN  Dct([j \in DOMAIN kept |-> <<S(key(kept[j])),
+      plain == Dct([j \in DOMAIN kept |-> <<S(key(kept[j])),
                                      IF IsNone(vals[kept[j]]) /\ Nullable(fs[kept[j]]) THEN None
                                      ELSE Pack(FType(fs[kept[j]]), fcx(kept[j]), vals[kept[j]])>>])
+  IN  IF "post_ser" \in HooksOf(T) THEN MapN(plain, LAMBDA n : n * 10) ELSE plain
 
 \* exactly one customisation level applies; with none the built-in rendering PackB is used
 Pack(T, cx, v) ==
